@@ -30,7 +30,8 @@ NATFLAGS = ['-std=c++17', '-O1', '-g', '-I' + REPO + '/include', '-I' + REPO + '
 CBMC_BASE = ['--drop-unused-functions', '--no-malloc-may-fail', '--unwinding-assertions', '--div-by-zero-check',
              '--undefined-shift-check', '--stop-on-fail', '--trace', '--no-standard-checks', '--bounds-check',
              '--pointer-check', '--pointer-primitive-check', '--malloc-fail-null']
-CBMC_BASE = ['--drop-unused-functions', '--no-malloc-may-fail', '--unwinding-assertions', '--stop-on-fail', '--trace', '--object-bits', '12']
+CBMC_BASE = ['--drop-unused-functions', '--no-malloc-may-fail', '--unwinding-assertions', '--trace', '--object-bits', '12', '--verbosity', '8',
+             '--max-field-sensitivity-array-size', '0']
 
 def log(*a):
     sys.stderr.write(' '.join(str(x) for x in a) + '\n'); sys.stderr.flush()
@@ -129,11 +130,8 @@ def driver_c(o, known_classes, witness_only=False):
     if o.get('known') and known_classes:
         L.append('  { int k_ = %s(verif_in.b); __CPROVER_assume(%s); }' % (o['known'], ' && '.join('k_ != %d' % c for c in known_classes)))
     L.append('  uint32_t r_ = %s(verif_in.b, verif_out);' % o['prop'])
-    L.append('#ifdef WITNESS')
-    L.append('  __CPROVER_assert(0, "WITNESS: end of harness reachable");')
-    L.append('#else')
     L.append('  __CPROVER_assert(r_ == 1, "PROPERTY: %s");' % o['name'])
-    L.append('#endif')
+    L.append('  __CPROVER_assert(0, "WITNESS: end of harness reachable");')
     L.append('}')
     return '\n'.join(L) + '\n'
 
@@ -324,21 +322,21 @@ def translation_validation(h, d, obls, seed, n_random):
     return {'inputs': len(lines), 'mismatches': len(mism), 'skipped_bound': skipped, 'detail': mism[:5]}
 
 # ---------------------------------------------------------------- cbmc
-def cbmc_cmd(o, d, backend, witness):
+def cbmc_cmd(o, d, backend, witness=False):
     cmd = ['cbmc', '-I', MODELS, os.path.join(d, 'gen.c'), os.path.join(d, 'drv_%s.c' % o['name']), '--function', 'verif_driver',
            '--unwind', str(o['unwind'])] + CBMC_BASE + o.get('cbmc', [])
     for us in o.get('unwindset', []): cmd += ['--unwindset', us]
     if o.get('_unwindset'): cmd += ['--unwindset', ','.join(o['_unwindset'])]
-    if witness: cmd += ['-DWITNESS']
     if backend == 'kissat': cmd += ['--external-sat-solver', 'kissat']
     elif backend == 'cadical': cmd += ['--sat-solver', 'cadical']
     elif backend == 'z3': cmd += ['--z3']
     elif backend == 'cvc5': cmd += ['--cvc5']
     return cmd
 
-def loops_of(d):
-    """loop ids of the generated module (cbmc --show-loops)"""
-    rc, out, t = sh(['cbmc', '-I', MODELS, os.path.join(d, 'gen.c'), '--show-loops'])
+def loops_of(d, o):
+    """loop ids reachable for this obligation (cbmc --show-loops after dropping unused functions)"""
+    rc, out, t = sh(['cbmc', '-I', MODELS, os.path.join(d, 'gen.c'), os.path.join(d, 'drv_%s.c' % o['name']), '--function', 'verif_driver',
+                     '--drop-unused-functions', '--show-loops'])
     return re.findall(r'^Loop (\S+):', out, re.M)
 
 def resolve_unwind_fn(o, loops):
@@ -352,32 +350,39 @@ def resolve_unwind_fn(o, loops):
     return us
 
 def parse_cbmc(out):
-    r = {'verdict': None, 'failed': [], 'inputs': None, 'vars': None, 'clauses': None, 'solver_s': None}
+    """all-properties mode: per-property status, and for each failed property its trace (inputs extracted)"""
+    r = {'verdict': None, 'failed': [], 'inputs': None, 'vars': None, 'clauses': None, 'solver_s': None, 'symex_s': None}
     if 'VERIFICATION SUCCESSFUL' in out: r['verdict'] = 'SUCCESS'
     elif 'VERIFICATION FAILED' in out: r['verdict'] = 'FAILED'
     m = re.search(r'(\d+) variables, (\d+) clauses', out)
     if m: r['vars'], r['clauses'] = int(m.group(1)), int(m.group(2))
-    m = re.search(r'Runtime decision procedure: ([0-9.]+)s', out)
-    if m: r['solver_s'] = float(m.group(1))
-    m = re.search(r'Runtime Solver: ([0-9.]+)s', out)
-    if m: r['solver_s'] = float(m.group(1))
-    for m in re.finditer(r'^\[([^\]]+)\] (?:line \d+ )?(.*): FAILURE$', out, re.M):
-        r['failed'].append((m.group(1), m.group(2)))
-    vm = re.search(r'Violated property:\n\s+file (\S+) function (\S+) line (\d+).*\n\s+(.*)\n', out)
-    if vm: r['violated'] = {'file': vm.group(1), 'function': vm.group(2), 'line': int(vm.group(3)), 'desc': vm.group(4).strip()}
-    ins = {}
-    for m in re.finditer(r'verif_in\.b\[(\d+)l?\]=(\d+)', out):
-        ins[int(m.group(1))] = int(m.group(2))
-    m2 = re.search(r'verif_in=\{ \.b=\{ ([^}]*) \} \}', out)
-    if m2 and not ins:
-        for i, v in enumerate(m2.group(1).split(',')):
-            ins[i] = int(v.strip()) & 255
-    if ins:
-        n = max(ins) + 1
-        r['inputs'] = bytes(ins.get(i, 0) for i in range(n)).hex()
+    ss = [float(x) for x in re.findall(r'Runtime Solver: ([0-9.e+-]+)s', out)]
+    if ss: r['solver_s'] = round(sum(ss), 3)
+    m = re.search(r'Runtime Symex: ([0-9.e+-]+)s', out)
+    if m: r['symex_s'] = round(float(m.group(1)), 3)
+    res_start = out.find('** Results:')
+    body = out[res_start:] if res_start >= 0 else out
+    r['nprops'] = len(re.findall(r'^\[[^\]]+\] .*: (?:SUCCESS|FAILURE)$', body, re.M))
+    for m in re.finditer(r'^\[([^\]]+)\] (?:line \d+ )?(.*): FAILURE$', body, re.M):
+        r['failed'].append({'id': m.group(1), 'desc': m.group(2)})
+    # traces
+    parts = re.split(r'^Trace for (\S+):$', body, flags=re.M)
+    traces = {}
+    for i in range(1, len(parts) - 1, 2):
+        traces[parts[i]] = parts[i + 1]
+    for f in r['failed']:
+        t = traces.get(f['id'], '')
+        ins = {}
+        for m in re.finditer(r'verif_in\.b\[(\d+)l?\]=(\d+)', t):
+            ins[int(m.group(1))] = int(m.group(2))
+        if ins:
+            n = max(ins) + 1
+            f['inputs'] = bytes(ins.get(i, 0) for i in range(n)).hex()
+        vm = re.search(r'Violated property:\n\s+file (\S+) function (\S+) line (\d+)', t)
+        if vm: f['where'] = '%s:%s' % (vm.group(2), vm.group(3))
     return r
 
-def run_race(o, d, witness, cap):
+def run_race(o, d, cap, witness=False):
     """race the configured back ends; first definite verdict wins"""
     backends = ['default'] if witness else o['backends']
     procs = []
@@ -469,12 +474,14 @@ def check(prop, tier, only=None, keep=False, seed=0):
             build_ir(h, d)
             fl = translate(h, d, obls)
             native_sources(h, d, obls)
-            loops = loops_of(d) if any(o.get('unwind_fn') for o in obls) else []
             for o in obls:
-                o['_unwindset'] = resolve_unwind_fn(o, loops)
                 kc = sorted({f['class'] for f in findings if f.get('obligation') in (o['name'], o.get('family')) and f['status'] == 'known'})
                 o['_known_classes'] = kc
                 open(os.path.join(d, 'drv_%s.c' % o['name']), 'w').write(driver_c(o, kc))
+            def lo(o):
+                o['_unwindset'] = resolve_unwind_fn(o, loops_of(d, o)) if o.get('unwind_fn') else []
+            with ThreadPoolExecutor(max_workers=8) as ex:
+                list(ex.map(lo, obls))
             with ThreadPoolExecutor(max_workers=2) as ex:
                 a = ex.submit(build_native, h, d); b = ex.submit(build_gen_native, h, d)
                 a.result(); b.result()
@@ -509,44 +516,43 @@ def check(prop, tier, only=None, keep=False, seed=0):
         par = min(par, int(os.environ.get('VERIF_PAR', '8')))
         def solve(job):
             h, o, d = job
-            w = run_race(o, d, True, min(o['cap_s'], 600))
             res = {'obligation': o['name'], 'harness': h['name'], 'desc': o.get('desc', ''), 'bounds': o.get('bounds', ''),
-                   'unwind': o['unwind'], 'in_bytes': o['in'], 'known_classes_excluded': o['_known_classes']}
-            wf = w.get('violated', {}).get('desc', '') if w.get('verdict') == 'FAILED' else ''
-            res['witness_reachable'] = bool(w.get('verdict') == 'FAILED' and wf.startswith('WITNESS:'))
-            res['witness_s'] = w.get('wall_s')
-            if not res['witness_reachable']:
-                res['status'] = 'engine_error'
-                res['error'] = 'witness twin not reachable (verdict %s, violated %r) %s' % (w.get('verdict'), wf, json.dumps(w.get('tails', {}))[-1200:])
-                # a non-witness failure in the twin is still informative: fall through to main run
-                if not (w.get('verdict') == 'FAILED'):
-                    return res
-            r = run_race(o, d, False, o['cap_s'])
-            res.update({'backend': r.get('backend'), 'solver_s': r.get('solver_s'), 'wall_s': r.get('wall_s'), 'vars': r.get('vars'),
-                        'clauses': r.get('clauses')})
+                   'unwind': o['unwind'], 'unwind_fn': o.get('unwind_fn', {}), 'in_bytes': o['in'], 'known_classes_excluded': o['_known_classes']}
+            r = run_race(o, d, o['cap_s'])
+            res.update({'backend': r.get('backend'), 'solver_s': r.get('solver_s'), 'symex_s': r.get('symex_s'), 'wall_s': r.get('wall_s'),
+                        'vars': r.get('vars'), 'clauses': r.get('clauses'), 'cbmc_properties': r.get('nprops')})
             if r['verdict'] is None:
-                res['status'] = 'engine_error'
+                res['status'] = 'engine_error'; res['witness_reachable'] = False
                 res['error'] = ('time-out after %ss' % o['cap_s']) if r.get('timeout') else 'no verdict: ' + json.dumps(r.get('tails'))[-1500:]
                 return res
-            if r['verdict'] == 'SUCCESS':
-                if res.get('status') != 'engine_error': res['status'] = 'discharged'
+            fails = r['failed']
+            for f in fails: f['class'] = classify(f['desc'])
+            res['witness_reachable'] = any(f['class'] == 'WITNESS' for f in fails)
+            real = [f for f in fails if f['class'] != 'WITNESS']
+            if not real:
+                if res['witness_reachable']: res['status'] = 'discharged'
+                else:
+                    res['status'] = 'engine_error'; res['error'] = 'vacuous: the end of the harness is not reachable (witness assertion not violated)'
                 return res
-            v = r.get('violated', {'desc': '?'})
-            cls = classify(v['desc'])
-            res['cex'] = {'inputs': r.get('inputs'), 'violated': v, 'class': cls}
-            if cls in ('BOUND', 'MODEL', 'UNWIND'):
+            # bound/model limits first: they make everything after them meaningless
+            lim = [f for f in real if f['class'] in ('BOUND', 'MODEL', 'UNWIND')]
+            if lim:
                 res['status'] = 'engine_error'
-                res['error'] = 'stated bound / model limit hit: %s (input %s)' % (v['desc'], r.get('inputs'))
+                res['error'] = 'stated bound / model limit hit: %s (input %s)' % (lim[0]['desc'], lim[0].get('inputs'))
+                res['cex'] = lim[0]
                 return res
-            # replay natively
-            inp = (r.get('inputs') or '').ljust(2 * o['in'], '0')
-            rr = run_native_each(os.path.join(d, 'native_real'), ['%s %s' % (o['name'], inp)])
-            res['cex']['native'] = rr[0] if rr else ''
-            nat = rr[0] if rr else ''
-            confirmed = (' r=' not in nat) or (' r=1 ' not in nat + ' ' and cls == 'PROPERTY')
-            if ' r=' in nat and cls != 'PROPERTY' and ' r=0 ' in nat + ' ':
-                confirmed = True
-            res['status'] = 'violation' if confirmed else 'unconfirmed'
+            # replay every distinct counterexample natively; report the first confirmed one
+            order = sorted(real, key=lambda f: 0 if f['class'] == 'PROPERTY' else 1)
+            res['cex_all'] = order[:6]
+            for f in order[:6]:
+                inp = (f.get('inputs') or '').ljust(2 * o['in'], '0')
+                rr = run_native_each(os.path.join(d, 'native_real'), ['%s %s' % (o['name'], inp)])
+                nat = rr[0] if rr else ''
+                f['native'] = nat
+                if (' r=' not in nat) or (' r=0 ' in nat + ' '):
+                    res['status'] = 'violation'; res['cex'] = f
+                    return res
+            res['status'] = 'unconfirmed'; res['cex'] = order[0]
             return res
         with ThreadPoolExecutor(max_workers=par) as ex:
             results = list(ex.map(solve, work))
@@ -562,10 +568,10 @@ def check(prop, tier, only=None, keep=False, seed=0):
         if r['status'] == 'violation':
             nviol += 1
             rp = os.path.join(VERIF, 'replays', prop, '%s.json' % r['obligation'])
-            json.dump({'property': prop, 'obligation': r['obligation'], 'harness': r['harness'], 'input_hex': r['cex']['inputs'],
-                       'violated': r['cex']['violated'], 'native': r['cex'].get('native')}, open(rp, 'w'), indent=1)
+            json.dump({'property': prop, 'obligation': r['obligation'], 'harness': r['harness'], 'input_hex': r['cex'].get('inputs'),
+                       'violated': r['cex']['desc'], 'where': r['cex'].get('where'), 'native': r['cex'].get('native')}, open(rp, 'w'), indent=1)
             print('VIOLATION property=%s replay=%s' % (prop, rp))
-            print('  obligation=%s class=%s input=%s native=%s' % (r['obligation'], r['cex']['class'], r['cex']['inputs'], r['cex'].get('native')))
+            print('  obligation=%s class=%s violated="%s" input=%s native=%s' % (r['obligation'], r['cex']['class'], r['cex']['desc'][:80], r['cex'].get('inputs'), r['cex'].get('native')))
         elif r['status'] == 'unconfirmed':
             engine_errors.append('UNCONFIRMED counterexample for %s: %s' % (r['obligation'], json.dumps(r['cex'])))
         elif r['status'] == 'engine_error':
@@ -576,10 +582,11 @@ def check(prop, tier, only=None, keep=False, seed=0):
         'property_id': prop, 'tier': tier, 'seed': seed, 'level': 'model_checking',
         'coverage': {
             'obligations': len(results), 'discharged': disch,
-            'evaluations': sum(2 for r in results) + sum(t['inputs'] for t in tvs),
+            'evaluations': sum((r.get('cbmc_properties') or 1) for r in results) + sum(t['inputs'] for t in tvs),
             'distinct_nontrivial': sum(1 for r in results if r.get('witness_reachable')),
-            'rule': 'one evaluation = one solver query (witness twin + property query per obligation) or one translation-validation input; '
-                    'an obligation counts as non-trivial iff its witness twin (assert(0) at the end of the harness) was shown reachable',
+            'rule': 'one evaluation = one property decided by the solver inside an obligation (the harness PROPERTY assertion, the WITNESS assertion, '
+                    'every memory-safety / UB / unwinding assertion CBMC instruments on the encoded real code) or one translation-validation input executed on both builds; '
+                    'an obligation counts as distinct non-trivial iff its witness assertion (assert(0) at the end of the harness) was shown reachable by the solver',
             'samples': [{k: v for k, v in r.items() if k not in ('error',)} for r in results][:60],
             'functions_encoded': functions_encoded,
             'translation_validation': [{k: v for k, v in t.items() if k != 'detail'} for t in tvs],
